@@ -1,9 +1,9 @@
 package mon
 
 import (
-	"reflect"
 	"fmt"
 	"math/rand"
+	"reflect"
 	"strings"
 
 	gpb "github.com/openconfig/gnmi/proto/gnmi"
